@@ -249,8 +249,34 @@ fn setup() -> i32 {
         bad += 1;
     }
     let futex_waits = (l1.2).0;
+    // 5. the clock seam: on a thread in fast-forward mode Rust's Instant and tree-sitter's C
+    //    code both see the simulated clock (a parse with a 1 s budget runs out of time)
+    let clock = |fast: bool| {
+        entropy::with_hash_seed(3, move || {
+            entropy::set_thread_clock_fast(if fast { Some(77) } else { None });
+            let t0 = std::time::Instant::now();
+            let t1 = std::time::Instant::now();
+            let src: String = (0..4000).map(|i| format!("v{} = f{}(a, b, c)\n", i, i)).collect();
+            let mut parser = tree_sitter::Parser::new();
+            parser.set_language(&tree_sitter_python::LANGUAGE.into()).unwrap();
+            #[allow(deprecated)]
+            parser.set_timeout_micros(1_000_000);
+            let parsed = parser.parse(&src, None).is_some();
+            let reads = entropy::thread_clock_reads();
+            entropy::set_thread_clock_fast(None);
+            (t1.duration_since(t0).as_millis(), parsed, reads)
+        })
+        .unwrap()
+    };
+    let (real, fast) = (clock(false), clock(true));
+    if real.0 > 500 || !real.1 || real.2 != 0 || fast.0 == 0 || fast.1 || fast.2 < 3 {
+        println!("HARNESS-ERROR clock seam: real clock (elapsed ms, parsed, simulated reads) = {:?}, fast-forward = {:?}", real, fast);
+        bad += 1;
+    }
+    let clock_reads = fast.2;
     if bad == 0 {
         println!("setup: futex seam verified ({} simulated waits, {} wake-ups, 0 stalls)", futex_waits, (l1.2).1);
+        println!("setup: clock seam verified (fast-forward: {} clock reads served, a parse with a 1 s budget timed out; real clock: it completed)", clock_reads);
         println!("setup: seams verified ({} query shapes, {} hash orders, 5 layout policies, {} id collisions among {} nodes under split-4G)", gen::SHAPES.len(), distinct.len(), c, n);
         0
     } else {
